@@ -52,6 +52,7 @@ type Contract struct {
 	Header   string // raw header remainder
 	Clauses  []Clause
 	Inline   []string
+	NoEscape []string // parameters whose backing array must not be retained (stored) by the function
 	Flags    map[string]bool
 	File     string
 	Line     int
@@ -76,7 +77,7 @@ func (c *Contract) Key() string {
 	return c.Target
 }
 
-var kwRe = regexp.MustCompile(`^(shared|contract|extern|model|loop|lemma|spec|property|requires|ensures|invariant|assigns|let|decreases|inline|flag|go|end)\b\s*(.*)$`)
+var kwRe = regexp.MustCompile(`^(shared|contract|extern|model|loop|lemma|spec|property|requires|ensures|invariant|assigns|let|decreases|inline|noescape|flag|go|end)\b\s*(.*)$`)
 
 func parseContractFile(path string) ([]*Contract, string, error) {
 	data, err := os.ReadFile(path)
@@ -156,6 +157,12 @@ func parseContractFile(path string) ([]*Contract, string, error) {
 				for _, p := range strings.Split(rest, ",") {
 					if p = strings.TrimSpace(p); p != "" {
 						cur.Inline = append(cur.Inline, p)
+					}
+				}
+			case "noescape":
+				for _, p := range strings.Split(rest, ",") {
+					if p = strings.TrimSpace(p); p != "" {
+						cur.NoEscape = append(cur.NoEscape, p)
 					}
 				}
 			case "flag":
